@@ -191,7 +191,13 @@ def plaintext_oracle(ctx: Ctx, n: int) -> None:
     rng = ctx.rng
     for _ in range(n):
         paras = [gen.layout(rng, gen.rand_words(rng, rng.randint(0, 30), 0.2)) for _ in range(rng.randint(1, 4))]
-        text = rng.choice(["\n\n", "\n\n\n", "\n \n"]).join(paras)
+        # separators drawn per gap, including whitespace-only lines between blank lines (an "empty paragraph") and at the ends
+        seps = ["\n\n", "\n\n\n", "\n \n", "\n\n \n\n", "\n\n\t\n\n", "\n\n  \n \n\n", "\n \n\n"]
+        text = paras[0] + "".join(rng.choice(seps) + p for p in paras[1:])
+        if rng.random() < 0.2:
+            text = rng.choice(["\n", " \n\n", "\n\n \n\n"]) + text
+        if rng.random() < 0.2:
+            text = text + rng.choice(["\n", "\n\n \n", "\n\n \n\n"])
         W = rng.choice([0, -1, 10, 30, 88])
         a = reformat_text(text, width=W, plaintext=True)
         b = reformat_text(a, width=W, plaintext=True)
